@@ -565,6 +565,39 @@ def boxall(run, fx):
                      'gr_face_preloadGlyphs reads those boxes on demand -- collision avoidance and kerning against .notdef differ between the two' % (v0, v0))
 
 
+def attrcap(run, fx):
+    """LOADERSIB, the acceptance bound both loaders share: attribute ids run 0.._num_attrs-1, so a well-formed glyph may carry up to
+    _num_attrs non-zero attributes.  read_glyph (called by the preloading constructor, where a null result fails the whole face, and by
+    the lazy path, where it yields an empty glyph) accepts a glyph on the fact  capacity() <= _num_attrs  -- compared as linear forms,
+    so `!(cap > n)`, `n >= cap`, `cap < n + 1` all read the same.  A stronger fact (`cap < n`) rejects a glyph that uses every declared
+    attribute: the face then loads or not depending on gr_face_preloadGlyphs; a weaker one accepts more attributes than declared."""
+    from . import linear
+    fn = fx.one('graphite2::GlyphCache::Loader::read_glyph')
+    inst = 'a glyph with exactly _num_attrs attributes is accepted'
+    seen = []
+    for b in fn.blocks:
+        succ = fn.blocks[b]['succ']
+        cnd = fn.term_cond(b)
+        if len(succ) != 2 or succ[0] == succ[1] or cnd is None:
+            continue
+        for idx, pol in ((0, True), (1, False)):
+            for at, p in dom.atoms(fn, cnd, pol):
+                for t, c in linear.lower_bounds(fn, at, p):
+                    cap = [k for k in t if 'capacity()' in k]
+                    num = [k for k in t if k.endswith('_num_attrs')]
+                    if len(cap) == 1 and len(num) == 1 and len(t) == 2 and t[cap[0]] == -1 and t[num[0]] == 1:
+                        seen.append((c, fn.render(fn.strip(at)), fn.loc(at), p))
+    if not seen:
+        run.broken('LOADERSIB', inst, 'read_glyph has no branch on which the attribute count of the glyph (sparse::capacity()) is known to be at most _num_attrs', fn.where())
+        return
+    c, txt, loc, p = min(seen)
+    if c < 0:
+        run.violated('LOADERSIB', inst, loc, 'read_glyph accepts a glyph only when capacity() <= _num_attrs - %d (`%s` %s): a glyph that uses all %s declared attribute ids is '
+                     'rejected -- with gr_face_preloadGlyphs the face fails to load, without it the glyph silently becomes empty, so the face options change results' % (-c, txt, 'holds' if p else 'fails', '_num_attrs'))
+    else:
+        run.held('LOADERSIB', inst, loc, 'accepted on `%s` %s: capacity() <= _num_attrs%s' % (txt, 'true' if p else 'false', ' + %d (more than declared: not this property\'s concern)' % c if c else ' exactly'))
+
+
 def run(run):
     fx = run.facts('Q0')
     opssize(run, fx)
@@ -577,6 +610,7 @@ def run(run):
         boxcount(run, fx)
         boxall(run, fx)
         nomutable(run, fx)
+        attrcap(run, fx)
     except AnalysisBroken as ex:
         run.broken('LOADERSIB', 'box records: two rectangles per sub-box at every site', str(ex))
     lazyaccess(run, fx)
